@@ -59,6 +59,15 @@ pub fn units(thorough: bool) -> Vec<Unit> {
                 program("delete-sub‖queued‖publish", progs, false, true),
             ));
         }
+        {
+            // two Deletes, `cap` further requests queued behind them, and a Publish
+            let mut progs = vec![vec![DeleteSub(S0)], vec![DeleteSub(S0)]];
+            for i in 0..cap {
+                progs.push(vec![[GetSub(S0), PullNow(S0, 10)][i % 2].clone()]);
+            }
+            progs.push(vec![Publish(T0, 1)]);
+            v.push(explore_unit(format!("sched/cap{}/delete-sub+delete-sub+{}queued+publish", cap, cap), "two DeleteSubscription of the same subscription, further requests queued on it, and a Publish on its topic", Bounds::new(d), cfg.clone(), program("delete-sub‖delete-sub‖queued‖publish", progs, false, false)));
+        }
         v.push(explore_unit(format!("sched/cap{}/delete-topic+publish+create-sub", cap), "DeleteTopic ‖ Publish ‖ CreateSubscription on the same topic", Bounds::new(d), cfg.clone(), program("delete-topic‖publish‖create-sub", vec![vec![DeleteTopic(T0)], vec![Publish(T0, 2)], vec![CreateSub(S2, T0)]], true, false)));
         v.push(explore_unit(format!("sched/cap{}/publish+publish+list", cap), "two Publishes (two subscriptions) ‖ ListTopicSubscriptions ‖ Pull", Bounds::new(d), cfg.clone(), program("publish‖publish‖list", vec![vec![Publish(T0, 1)], vec![Publish(T0, 2)], vec![ListTopicSubs(T0)], vec![PullNow(S0, 10)]], true, false)));
         v.push(explore_unit(format!("sched/cap{}/delete-sub+delete-sub+publish", cap), "two DeleteSubscription of the same subscription ‖ Publish", Bounds::new(d), cfg.clone(), program("delete-sub‖delete-sub", vec![vec![DeleteSub(S0)], vec![DeleteSub(S0)], vec![Publish(T0, 1)]], true, false)));
